@@ -54,6 +54,7 @@ ROOT = 0
 DEFAULT_GROUP = 1           # client id 0
 DEFNAME = 'default'
 PATH = '/tmp/c17.wav'
+KIND_OF = {'b_free_rev': 'b_free', 'g_conv': 'g_new', 's_conv': 's_new'}
 OPT = '<optional-0>'        # optional completion slot: absent or int 0
 ANY = '<any-number>'
 STATIC_COMPLETION = ['/sync', 9]
@@ -613,7 +614,8 @@ class ClientSys:
             cands = [expected] + alts
             if not any(same_seq(c, issued, plan.get('unordered', False))
                        for c in cands):
-                dis.append((f'emission:{name}', expected, issued, where))
+                dis.append((f'emission:{KIND_OF.get(name, name)}', expected,
+                            issued, where))
         if self.cm is not None and issued is not None:
             self.pending += issued if not dis else []
         self.last = [issued, type(exc).__name__ if exc else None]
@@ -1491,12 +1493,52 @@ def run_bfs(ctx, params, depth, batch=8):
 
 
 # --- known findings predicates ---------------------------------------------------
+# (fix patches are proposed in /verif/fixes/C17-*.patch; these predicates let
+# the maintainer file the defects as open findings instead)
 
 def _last_op(v):
     return v['case']['history'][-1]
 
 
-PREDICATES = {}
+def _buf_states(history):
+    """life-cycle of the buffer entities before the last operation"""
+    st = []
+    for op in history[:-1]:
+        if op[0] in ('b_new', 'b_consec', 'b_read', 'b_cue', 'b_new_alloc'):
+            st.append('live')
+        elif op[0] in ('b_free', 'b_free_rev') and op[1] < len(st):
+            if st[op[1]] == 'live':
+                st[op[1]] = 'freed'
+        elif op[0] == 'b_free_all':
+            st = ['stale'] * len(st)
+    return st
+
+
+def second_buffer_free(v):
+    op = _last_op(v)
+    st = _buf_states(v['case']['history'])
+    return op[0] in ('b_free', 'b_free_rev') and op[1] < len(st) and \
+        st[op[1]] == 'freed'
+
+
+def free_all_with_live_buffers(v):
+    return _last_op(v)[0] == 'b_free_all' and \
+        'live' in _buf_states(v['case']['history'])
+
+
+def consecutive_default_server(v):
+    op = _last_op(v)
+    return op[0] == 'b_consec' and op[2] is False
+
+
+def dict_args_with_list_value(v):
+    op = _last_op(v)
+    return op[0] in ('s_new', 's_conv', 's_replace') and op[-1] == 'dictl'
+
+
+PREDICATES = {f.__name__: f for f in (
+    second_buffer_free, free_all_with_live_buffers,
+    consecutive_default_server, dict_args_with_list_value)}
 
 
 def main(ctx):
